@@ -36,6 +36,14 @@ def parseCluster (s : String) : Option Cluster :=
       let cv ← if cmds = "-" then some [] else (cmds.splitOn ",").mapM (parseLeaf fm false)
       pure { id := i, attrs := av, cmds := cv }
     | _, _ => none
+  | [i, fm, attrs, cmds, evs] =>
+    match i.toNat?, fm.toNat? with
+    | some i, some fm => do
+      let av ← if attrs = "-" then some [] else (attrs.splitOn ",").mapM (parseLeaf fm true)
+      let cv ← if cmds = "-" then some [] else (cmds.splitOn ",").mapM (parseLeaf fm false)
+      let ev ← if evs = "-" then some [] else (evs.splitOn ",").mapM (parseLeaf fm false)
+      pure { id := i, attrs := av, cmds := cv, events := ev }
+    | _, _ => none
   | _ => none
 
 def parseEndpoint (s : String) : Option Endpoint :=
@@ -79,6 +87,7 @@ def statusName : Status → String
   | .unsupportedWrite => "UnsupportedWrite"
   | .needsTimedInteraction => "NeedsTimedInteraction"
   | .unsupportedAccess => "UnsupportedAccess"
+  | .unsupportedEvent => "UnsupportedEvent"
 
 def b01 (b : Bool) : String := if b then "1" else "0"
 
@@ -91,7 +100,111 @@ def fmtOut (op : Operation) : Out → String
 def fmtOuts (op : Operation) (l : List Out) : String :=
   if l.isEmpty then "-" else " | ".intercalate (l.map (fmtOut op))
 
+/-- the triples of the items in an implementation answer (`ok ep cl leaf …`), one entry per output -/
+def parseOuts (out : String) : List (Option (Nat × Nat × Nat)) :=
+  if out = "-" then [] else
+  (out.splitOn " | ").map fun o =>
+    match words o with
+    | "ok" :: e :: c :: l :: _ =>
+      match e.toNat?, c.toNat?, l.toNat? with
+      | some e, some c, some l => some (e, c, l)
+      | _, _, _ => none
+    | _ => none
+
+/-- `node_swap_safe` evaluated on the implementation's answer; `nodes[i]` is what call `i` saw -/
+def swapOracle (ctx : Ctx) (op : Operation) (sched : List Node) (paths : List Path) (out : String) : Option String :=
+  let outs := parseOuts out
+  let nodeAt (i : Nat) : Node := (sched[i]?).getD (sched.getLast?.getD [])
+  -- clause 1 (any request): every item is permitted on the node of its call
+  let bad1 := (List.range outs.length).filter fun i =>
+    match outs[i]? with
+    | some (some (e, c, l)) => !(itemPermittedOn ctx op (nodeAt i) paths e c l)
+    | _ => false
+  if !bad1.isEmpty then some s!"item of call {bad1.head!} not permitted on its node" else
+  match paths with
+  | [p] =>
+    if isWildcard p && (op == .read || (p.cluster.isSome && p.leaf.isSome)) then
+      let triples := outs.filterMap id
+      -- clause 2: no leaf twice
+      if !(decide triples.Nodup) then some "leaf yielded twice" else
+      -- clause 3: the compositions seen are those of calls 0 .. |outs| (the last call returns None)
+      let seen := (List.range (outs.length + 1)).map nodeAt
+      let owed := owedThroughout ctx op seen p
+      match owed.find? (fun t => !(triples.contains t)) with
+      | some t => some s!"owed leaf {t.1}/{t.2.1}/{t.2.2} of an endpoint present throughout not yielded"
+      | none => none
+    else none
+  | _ => none
+
 def FUEL : Nat := 100000
+
+/-! ### the end-to-end stream (`e2e` lines) -/
+
+def fmtE2eOut : Out → String
+  | .item ep cl leaf _ _ => s!"ok {ep} {cl} {leaf}"
+  | .status p s => s!"st {fmtOpt p.endpoint}/{fmtOpt p.cluster}/{fmtOpt p.leaf} {statusName s}"
+
+def fmtEvOut : EvOut → String
+  | .data e => s!"ev {e.ep} {e.cl} {e.ev} n{e.num}"
+  | .status p s => s!"st {fmtOpt p.endpoint}/{fmtOpt p.cluster}/{fmtOpt p.leaf} {statusName s}"
+
+def joinOr (sep : String) (l : List String) : String := if l.isEmpty then "-" else sep.intercalate l
+
+def fmtOutcome (letter : String) (o : Outcome) : String :=
+  let top := match o.top with | none => "-" | some s => s!"status:{s}"
+  let eff := joinOr "," (o.effects.map fun (e, c, l) => s!"{letter}.{e}.{c}.{l}")
+  s!"{top} # {eff} # {joinOr " | " (o.resp.map fmtE2eOut)}"
+
+def parseOcc (i : Nat) (s : String) : Option EventOcc :=
+  match (s.splitOn ".").mapM (·.toNat?) with
+  | some [e, c, v, f] => some { ep := e, cl := c, ev := v, fab := f, num := i + 1 }
+  | _ => none
+
+def parseTimed (s : String) : Option (Option (Nat × Nat)) :=
+  if s = "-" then some none else
+  match (s.splitOn ":").mapM (·.toNat?) with
+  | some [t, d] => some (some (t, d))
+  | _ => none
+
+def e2eStep (st : St) (kind fab mode id cats treq flag paths emit out : String) : St × String :=
+  let op : Operation := if kind = "w" then .write else if kind = "i" then .invoke else .read
+  match fab.toNat?, id.toNat?, Driver.C05.natList cats, parseTimed treq,
+      (((paths.splitOn ";").filter (fun s => s ≠ "" ∧ s ≠ "-")).mapM parsePath),
+      (if emit = "-" then some [] else
+        (((emit.splitOn ",").zipIdx).mapM fun (s, i) => parseOcc i s)) with
+  | some fab, some id, some cats, some tr, some paths, some queue =>
+    -- `Accessor::for_session`: PASE sessions have the subject 1 and the session's fabric index
+    let acc : Accessor :=
+      if mode = "p" then { fabIdx := fab, auxAclEnabled := false, subjects := subjectsNew 1, authMode := some .pase }
+      else { fabIdx := fab, auxAclEnabled := false, subjects := cats.foldl addCatid (subjectsNew id), authMode := some .case }
+    let flagB := flag = "1"
+    let ctx : Ctx := { fabrics := st.acl.fabrics, accessor := acc, timed := (op ≠ .read) && flagB,
+                       filter := fun _ _ _ => true }
+    let sorted : Bool := decide ((st.node.map (·.id)).Pairwise (· < ·))
+    let inScope := nodeWF st.node && eventsWF st.node &&
+      st.acl.fabrics.all (fun f => f.acl.all (fun e => Driver.C05.canonicalPriv e.privilege))
+    let bad := out.startsWith "panic" ∨ out.startsWith "hang" ∨ out.startsWith "err" ∨ out.startsWith "devend" ∨
+      out.startsWith "setup" ∨ out.startsWith "undecodable" ∨ out.startsWith "timedfail" ∨ out.startsWith "opcode"
+    if mode ≠ "p" ∧ fab = 0 then (st, "BAD e2e case session needs a fabric") else
+    if bad then (if out.startsWith "panic" && !sorted then (st, "ok") else (st, s!"ORA {out}")) else
+    if kind = "v" then
+      let model := s!"- # - # {joinOr " | " ((reportEvents ctx st.node true paths queue).map fmtEvOut)}"
+      let specL := expectedEvents ctx st.node true paths queue
+      let spec := s!"- # - # {joinOr " | " (specL.map fmtEvOut)}"
+      -- the same list without the statuses of concrete paths naming an absent event
+      let specSilent := s!"- # - # {joinOr " | " ((specL.filter fun o =>
+          match o with | .status _ .unsupportedEvent => false | _ => true).map fmtEvOut)}"
+      if inScope && spec ≠ out then
+        (st, if specSilent = out then s!"ORA absent-event-silent spec=[{spec}]" else s!"ORA spec=[{spec}]")
+      else if model = out then (st, "ok") else (st, s!"DIS {model}")
+    else
+      let letter := if kind = "w" then "W" else if kind = "i" then "I" else "R"
+      let fuel := if sorted then fuelBound op st.node paths else FUEL
+      let model := fmtOutcome letter (imRequest op flagB tr paths (expand ctx op st.node paths fuel))
+      let spec := fmtOutcome letter (imRequest op flagB tr paths (expected ctx op st.node paths))
+      if inScope && spec ≠ out then (st, s!"ORA spec=[{spec}]")
+      else if model = out then (st, "ok") else (st, s!"DIS {model}")
+  | _, _, _, _, _, _ => (st, "BAD e2e")
 
 def step (st : St) (line : String) : St × String :=
   let (opText, out) := splitArrow line
@@ -115,18 +228,51 @@ def step (st : St) (line : String) : St × String :=
       let excl := if op = .read then excl else []
       let ctx : Ctx := { fabrics := st.acl.fabrics, accessor := acc, timed := (op ≠ .read) && timed = "1",
                          filter := fun e c l => !(excl.contains (e, c, l)) }
-      let model := fmtOuts op (expand ctx op st.node paths FUEL)
+      -- `Props/C06.expand_terminates`: on a node with sorted endpoints the run has ended after
+      -- `fuelBound` calls of `next` (more fuel changes nothing); the constant cap only guards nodes
+      -- that violate the invariant (there the real code panics / the scan may revisit endpoints)
+      let sorted : Bool := decide ((st.node.map (·.id)).Pairwise (· < ·))
+      let fuel := if sorted then fuelBound op st.node paths else FUEL
+      let model := fmtOuts op (expand ctx op st.node paths fuel)
       let inScope := nodeWF st.node &&
         st.acl.fabrics.all (fun f => f.acl.all (fun e => Driver.C05.canonicalPriv e.privilege))
       let spec := fmtOuts op (expected ctx op st.node paths)
       -- `resume_endpoint_index` debug-asserts `Node`'s documented invariant (endpoints strictly
       -- ascending); a panic on a node violating it is the stated precondition, not a finding
-      let sorted : Bool := decide ((st.node.map (·.id)).Pairwise (· < ·))
       if out.startsWith "panic" && !sorted then (st, "ok")
       else if out.startsWith "panic" ∨ (out.splitOn "HANG").length > 1 then (st, s!"ORA {out}")
       else if inScope && spec ≠ out then (st, s!"ORA spec=[{spec}]")
       else if model = out then (st, "ok") else (st, s!"DIS {model}")
     | _, _, _, _, _, _ => (st, "BAD x")
+  | ["e2e", kind, fab, mode, id, cats, treq, flag, paths, emit] =>
+    e2eStep st kind fab mode id cats treq flag paths emit out
+  | "sw" :: kind :: fab :: mode :: aux :: id :: cats :: timed :: excl :: paths :: specs =>
+    let op : Operation := if kind = "r" then .read else if kind = "w" then .write else .invoke
+    match fab.toNat?, Driver.C05.modeOf mode, id.toNat?, Driver.C05.natList cats,
+        (if excl = "-" then some [] else (excl.splitOn ",").mapM parseTriple),
+        (((paths.splitOn ";").filter (fun s => s ≠ "" ∧ s ≠ "-")).mapM parsePath),
+        specs.mapM parseNode with
+    | some fab, some mode, some id, some cats, some excl, some paths, some sched =>
+      if sched.isEmpty then (st, "BAD sw") else
+      let subj := cats.foldl addCatid (subjectsNew id)
+      let acc : Accessor := { fabIdx := fab, auxAclEnabled := aux = "1", subjects := subj, authMode := mode }
+      let excl := if op = .read then excl else []
+      let ctx : Ctx := { fabrics := st.acl.fabrics, accessor := acc, timed := (op ≠ .read) && timed = "1",
+                         filter := fun e c l => !(excl.contains (e, c, l)) }
+      let last := sched.getLast?.getD []
+      let allSorted := sched.all fun n => decide ((n.map (·.id)).Pairwise (· < ·))
+      -- once the schedule is over the node is fixed: `expand_terminates` bounds the rest
+      let tail := if allSorted then fuelBound op last paths else 2000
+      let model := fmtOuts op (runSwap ctx op (sched ++ List.replicate tail last) { items := paths })
+      let inScope := sched.all nodeWF && stableNodes sched &&
+        st.acl.fabrics.all (fun f => f.acl.all (fun e => Driver.C05.canonicalPriv e.privilege))
+      if out.startsWith "panic" && !allSorted then (st, "ok")
+      else if out.startsWith "panic" ∨ (out.splitOn "HANG").length > 1 then (st, s!"ORA {out}")
+      else
+        match (if inScope then swapOracle ctx op sched paths out else none) with
+        | some why => (st, s!"ORA {why}")
+        | none => if model = out then (st, "ok") else (st, s!"DIS {model}")
+    | _, _, _, _, _, _, _ => (st, "BAD sw")
   | _ =>
     let (a, o) := Driver.C05.step st.acl line
     ({ st with acl := a }, o)
